@@ -122,12 +122,14 @@ class Check(PropertyCheck):
                   "_counterexample (finding F-C54g); all against "
                   "RFC 6265 §5.1.3/§5.2.3/§5.1.4 stated in Lean, for ALL histories, every clock and every notion of 'IP address' "
                   "obeying two stated laws. Tie: differential histories (the model PREDICTS is_expired of every Set-Cookie and "
-                  "the Cookie header of every request; frozen clock), exhaustive host x domain / path x path pairs, int() strings.")
-    level_note = ("trusted: Lean kernel; differential tie; the Set-Cookie tokeniser (header text -> name, value, attribute pairs, "
-                  "with None for an attribute without '=value') is not transcribed, but every response event now checks that the "
-                  "real tokeniser delivers exactly the structured cookies the model is given (short/empty Expires values, bare and "
-                  "long RFC 850 weekday names, attributes before and after them) and email.utils date parsing are parameters of the model, "
-                  "exercised through the real parser (the date verdict is an input of each raw cookie); the flow filter is the "
+                  "the Cookie header of every request; frozen clock), exhaustive host x domain / path x path pairs, int() strings. New: attached_only_if_spec_match_hdr / "
+                  "jar_is_last_write_hdr — the same for histories given by the TEXT of the Set-Cookie headers: the tokenizer "
+                  "(_read_set_cookie_pairs / parse_set_cookie_header, the transcription C34 maintains, after fixes e0e81be4a / "
+                  "8cc872297) is inside the model, and the tie now hands the model the header text (driver op hresp).")
+    level_note = ("trusted: Lean kernel; differential tie; email.utils date parsing is the only parameter of a response (a function Expires-value -> timestamp; the theorems hold "
+                  "for every such function); the Set-Cookie tokeniser is transcribed (Model/C34, imported) and tied here by hresp "
+                  "and in C34 by its own op; a cookie NAME without '=value' (Python value None) is represented with the empty value "
+                  "and not generated; the harness also checks on every response that the real tokeniser delivers the cookies sent; the flow filter is the "
                   "`flt` flag; ASCII hosts/domains/attribute values only (str.lower = ASCII lower, int() on ASCII); the cookie's "
                   "path is the one ckey stores (Path attribute or '/'): RFC 6265's default-path is not part of the statement "
                   "and not modelled; where Python int() and the RFC grammar disagree about a Max-Age value ('+0', '1_0') the "
@@ -356,8 +358,7 @@ class Check(PropertyCheck):
                     f = self._flow(ev, True)
                     f.response.headers.pop("set-cookie", None)
                     for c in ev["cookies"]:
-                        f.response.headers.add("Set-Cookie", c["name"] + "=" + c["value"] +
-                                               "".join(f"; {k}" if v is None else f"; {k}={v}" for k, v in c["attrs"]))
+                        f.response.headers.add("Set-Cookie", self._header(c))
                     # what the real parser + is_expired say about each cookie (the model predicts these flags)
                     parsed = list(f.response.cookies.items(multi=True))
                     flags = [int(bool(mcookies.is_expired(attrs))) for _, (_, attrs) in parsed]
@@ -549,6 +550,10 @@ class Check(PropertyCheck):
 
     # ---- the model ---------------------------------------------------------------------------
     @staticmethod
+    def _header(c):
+        return c["name"] + "=" + c["value"] + "".join(f"; {k}" if v is None else f"; {k}={v}" for k, v in c["attrs"])
+
+    @staticmethod
     def _cookie_field(c):
         attrs = ";".join(hs(k) if v is None else hs(k) + "=" + hs(v) for k, v in c["attrs"]) or "_"
         ts = date_ts(c["attrs"])
@@ -561,7 +566,15 @@ class Check(PropertyCheck):
         lines = ["reset"]
         for ev in case["evs"]:
             if ev["t"] == "resp":
-                lines.append(f"resp {NOW} {hs(ev['host'])} {ev['port']} " + (",".join(self._cookie_field(c) for c in ev["cookies"]) or "_"))
+                # the model gets the header TEXT (exactly what the real response carries) and tokenizes it itself
+                # (C34.parseSetCookie); the only digested input is email.utils' verdict per Expires value
+                table = {}
+                for c in ev["cookies"]:
+                    v = last_attr(c["attrs"], "expires")
+                    ts = date_ts(c["attrs"])
+                    if v and ts is not None: table[v] = ts
+                lines.append(f"hresp {NOW} {hs(ev['host'])} {ev['port']} " + (",".join(hs(self._header(c)) for c in ev["cookies"]) or "_")
+                             + " " + (",".join(f"{hs(v)}={ts}" for v, ts in table.items()) or "_"))
             else:
                 lines.append(f"req {1 if ev['m'] == 'GET' else 0} {hs(ev['host'])} {ev['port']} {hs(ev['path'])}")
         lines.append("dump")
